@@ -533,3 +533,12 @@ Definition check_parse (m_session : N) (p : rfc_pkt) (o : parse_obs) : bool :=
 Definition P_C06_parse (m_session : N) (p : rfc_pkt) (out : res parse_obs) : bool :=
   if negb (wf_pkt p && parse_demand m_session p) then true
   else match out with Ok o => check_parse m_session p o | _ => false end.
+
+(* ---------- recorded finding D32 ----------
+   class Known_D32: the packet carries an EXT_FTI of FEC Encoding ID 1 (Raptor).  flute writes and
+   reads it with the RFC 6330 figure instead of the RFC 5053 3.2.2/3.2.3 figure, so for this class
+   the predicates above fail; every theorem C06_spec_*_holds excludes exactly this class. *)
+Definition known_d32_build (o : oti) (p : pkt) : bool :=
+  match o_fec o with Raptor => has_fti o p | _ => false end.
+Definition known_d32_parse (p : rfc_pkt) : bool :=
+  (r_cp (rp_lct p) =? 1) && match find_ext 64 (rp_exts p) with Some _ => true | None => false end.
